@@ -359,7 +359,8 @@ func (g *foldGen) numAtom() string {
 
 func (g *foldGen) strAtom() string {
 	if g.r.Chance(3, 5) {
-		return pick(g.r, []string{"'a'", "''", "'12'", "'B'", "'0.5'", "'x y'"})
+		// numerals with blanks around them: not numbers for the conversions, whatever Go kind carries the text
+		return pick(g.r, []string{"'a'", "''", "'12'", "'B'", "'0.5'", "'x y'", "'2 '", "' 7'", "'1.5 '", "' '"})
 	}
 	if g.alias && g.r.Chance(1, 2) {
 		return "s"
